@@ -53,6 +53,13 @@ def RACT(rid, is_bool=False, veto=0, thr=0, std=False):
     return ('r', (int(rid), bool(is_bool), int(veto), int(thr), bool(std)))
 
 
+def RACT0(rid, is_bool=False, veto=False, thr=False, std=False):
+    """An action class for the `apply0< A... >` rule (ids from 3000000: their calls carry no position).  In the model it is a
+    rule-level action whose decisions are constants: vetoMod / throwMod are 1 (always) or 0 (never)."""
+    assert int(rid) >= 3000000
+    return ('r', (int(rid), bool(is_bool), 1 if veto else 0, 1 if thr else 0, bool(std)))
+
+
 def CTL(k):
     return ('k', int(k))
 
@@ -79,6 +86,10 @@ def spell_arg(a, nsname) -> str:
         return f"{nsname}::act{v}"
     if k == 'r':            # rule-level action class named by apply< … > / if_apply< R, … >: (id, isBool, vetoMod, throwMod, throwStd)
         rid, is_bool, veto, thr, std = v
+        if rid >= 3000000:      # apply0< … >
+            if is_bool:
+                return f"vh::ract0_bool< {nsname}::tag, {rid}, {'true' if veto else 'false'}, {'true' if thr else 'false'}, {'true' if std else 'false'} >"
+            return f"vh::ract0_void< {nsname}::tag, {rid}, {'true' if thr else 'false'}, {'true' if std else 'false'} >"
         if is_bool:
             return f"vh::ract_bool< {nsname}::tag, {rid}, {veto}, {thr}, {'true' if std else 'false'} >"
         return f"vh::ract_void< {nsname}::tag, {rid}, {thr}, {'true' if std else 'false'} >"
@@ -203,7 +214,7 @@ def public_base(t: T):
         return I('pad', *a)
     if n == 'raise':
         return I('raise', *a)
-    if n in ('if_apply', 'apply'):
+    if n in ('if_apply', 'apply', 'apply0'):
         return I(n, *a)
     if n == 'raise_message':         # struct raise_message< Cs... > : internal::raise< raise_message< Cs... > > { error_message = Cs... }
         return I('raise', P('raise_message', *a))
@@ -511,7 +522,8 @@ def body_of_internal(t: T):
     if n == 'if_apply':
         acts = [x[1] for x in a if not is_type(x) and x[0] == 'r']
         return ('ifApply', [ty[0], acts])
-    if n == 'apply':
+    if n in ('apply', 'apply0'):
+        # internal::apply0< A... >::match is internal::apply< A... >::match without the action input: the same conjunction
         acts = [x[1] for x in a if not is_type(x) and x[0] == 'r']
         return ('applyR', [acts])
     if n == 'state':
